@@ -177,6 +177,38 @@ def namedTopGuard : Ty → Val → Bool
       (enumSyms u).isNone && errOK v
   | _, _ => false
 
+/-- a value of a named type over a plain type, anywhere in a value: the guards of the
+    first-occurrence and of the later-occurrence theorems together, and the name is bound to this
+    type in the binding table `b` (one name, one type). -/
+def namedNodeOK (b : List (Name × Ty)) (n : Name) (u : Ty) (v : Val) : Bool :=
+  namedTopGuard (.named n u) (.named v) && noUnionElems u && !u.isUnion &&
+    decide (assoc n b = some (.named n u))
+
+mutual
+/-- values with named types *inside*: records, arrays and sets (not empty, not null) whose
+    fields / elements are plain values or values of named types over plain types. -/
+def spineOK (b : List (Name × Ty)) (t : Ty) (v : Val) : Bool :=
+  if plainTy t then wfTy t && wfVal t v && errOK v
+  else match v, t with
+    | .named v', .named n u => namedNodeOK b n u v'
+    | .record vs, .record fs => spineFields b fs vs && !fs.hasDup
+    | .array (.cons x r), .array et => !et.under.isUnion && spineElems b et (.cons x r)
+    | .set (.cons x r), .set et => !et.under.isUnion && spineElems b et (.cons x r)
+    | _, _ => false
+def spineFields (b : List (Name × Ty)) (fs : Fields) (vs : Vals) : Bool :=
+  match vs, fs with
+  | .nil, .nil => true
+  | .cons v vr, .cons _ t fr => !t.under.isUnion && spineOK b t v && spineFields b fr vr
+  | _, _ => false
+def spineElems (b : List (Name × Ty)) (et : Ty) (vs : Vals) : Bool :=
+  match vs with
+  | .nil => true
+  | .cons v r => spineOK b et v && spineElems b et r
+end
+
+/-- what `zson_roundtrip_stream_nested_partial` asks of each value of the stream. -/
+def itemOKB (b : List (Name × Ty)) (tv : Ty × Val) : Bool := spineOK b tv.1 tv.2 && !bareEmpty tv.2
+
 /-! ### streams of values (zsonio.Writer / zsonio.Reader, Formatter.Format in a loop) -/
 
 /-- `reset = true`: `FormatRecord` (typedef scope = one value; the `persist` table survives);
